@@ -680,3 +680,89 @@ Proof.
   cbn. split; [reflexivity|]. split; [apply normalise_idempotent|].
   split; [apply accept_sound|]. split; [apply reject_is_config_error | apply no_index_error].
 Qed.
+
+(* ------------------------------------------------------------------ the route (fresh / restart) *)
+
+(* setup_config gives no answer only on a restart file that is finished or lacks a path *)
+Lemma setup_from_none steps cur c :
+  setup_from steps cur c = None <->
+  exists k, cur = Some k /\ (cstep k = steps \/ paths_present k = false).
+Proof.
+  unfold setup_from. destruct cur as [k|].
+  - destruct (Z.eqb_spec (cstep k) steps) as [E|E].
+    + split; [intros _; exists k; auto | reflexivity].
+    + destruct (paths_present k) eqn:P; cbn.
+      * split; [discriminate|]. intros [k' [K [H|H]]]; inversion K; subst k'; congruence.
+      * split; [intros _; exists k; auto | reflexivity].
+  - split; [discriminate | intros [k [K _]]; discriminate].
+Qed.
+
+(* by any route: an answer is the answer of the one setup_config *)
+Lemma setup_from_some steps cur c o :
+  setup_from steps cur c = Some o -> o = setup_config c.
+Proof.
+  unfold setup_from. destruct cur as [k|]; [|intros H; now inversion H].
+  destruct (cstep k =? steps)%Z; [discriminate|].
+  destruct (negb (paths_present k)); [discriminate|]. intros H; now inversion H.
+Qed.
+
+Lemma setup_from_continues steps k c :
+  cstep k <> steps -> paths_present k = true ->
+  setup_from steps (Some k) c = Some (setup_config c).
+Proof.
+  intros E P. unfold setup_from. destruct (Z.eqb_spec (cstep k) steps) as [E'|_]; [contradiction|].
+  now rewrite P.
+Qed.
+
+Lemma setup_from_route_irrelevant steps k c :
+  cstep k <> steps -> paths_present k = true ->
+  setup_from steps (Some k) c = setup_from steps None c.
+Proof. intros E P. now rewrite setup_from_continues. Qed.
+
+Lemma setup_any_route steps cur c c' r :
+  setup_from steps cur c = Some (c', r) ->
+  c' = normalise c /\ normalise c' = c' /\
+  (r = Ok -> valid c') /\ (~ valid c' -> exists k, r = ConfigError k /\ err_holds c' k) /\
+  r <> Crash IndexError.
+Proof.
+  intros H. apply setup_from_some in H. pose proof (setup_config_spec c) as S.
+  rewrite <- H in S. exact S.
+Qed.
+
+Lemma invalid_never_starts steps cur c :
+  ~ valid (normalise c) -> ~ sampling_starts (setup_from steps cur c).
+Proof.
+  intros NV [c' H]. destruct (setup_any_route _ _ _ _ _ H) as [E [_ [A _]]].
+  subst c'. exact (NV (A eq_refl)).
+Qed.
+
+Lemma fresh_rejects_invalid steps c :
+  ~ valid (normalise c) ->
+  exists e, setup_from steps None c = Some (normalise c, ConfigError e) /\
+            err_holds (normalise c) e.
+Proof.
+  intros NV. destruct (reject_is_config_error _ NV) as [e [E H]].
+  exists e. split; [|exact H]. cbn. unfold setup_config. now rewrite E.
+Qed.
+
+Lemma restart_rejects_invalid steps k c :
+  cstep k <> steps -> paths_present k = true -> ~ valid (normalise c) ->
+  exists e, setup_from steps (Some k) c = Some (normalise c, ConfigError e) /\
+            err_holds (normalise c) e.
+Proof.
+  intros E P NV. rewrite (setup_from_route_irrelevant _ _ _ E P).
+  now apply fresh_rejects_invalid.
+Qed.
+
+(* sampling starts exactly for the configurations check_config lets through, by any route
+   that gives an answer *)
+Lemma sampling_starts_iff steps cur c :
+  sampling_starts (setup_from steps cur c) <->
+  setup_from steps cur c <> None /\ check_config (normalise c) = Ok.
+Proof.
+  split.
+  - intros [c' H]. split; [congruence|]. apply setup_from_some in H.
+    unfold setup_config in H. now inversion H.
+  - intros [NN E]. destruct (setup_from steps cur c) as [o|] eqn:H; [|contradiction].
+    apply setup_from_some in H. subst o. exists (normalise c). unfold setup_config. now rewrite E.
+Qed.
